@@ -296,3 +296,6 @@ void run_case(ByteSource& s, CaseInfo& ci) {
   }
 }
 void enumerate(const Emit&, const std::string&) {}
+
+// no defect of the pinned tree was found behind this property
+void regressions() {}
